@@ -1,6 +1,8 @@
 package rules
 
 import (
+	"regexp"
+	"go/ast"
 	"fmt"
 	"go/constant"
 	"go/token"
@@ -878,6 +880,10 @@ func orderSensitive(p *core.Program, rl rangeLoop) []string {
 					add("stores into a slice/array element at " + p.Pos(in.Pos()))
 					continue
 				}
+				if fa, ok := x.Addr.(*ssa.FieldAddr); ok && core.FieldObj(fa) != nil {
+					add("stores field " + core.FieldObj(fa).Name() + " through a pointer at " + p.Pos(in.Pos()))
+					continue
+				}
 				add("stores through a pointer at " + p.Pos(in.Pos()))
 			case ssa.CallInstruction:
 				cm := x.Common()
@@ -996,6 +1002,196 @@ func storeOfValue(v ssa.Value) ssa.Value {
 	return nil
 }
 
+
+// rangeName names a map range by the source text of the ranged expression
+// (stable under SSA renumbering), falling back to the access path.
+func rangeName(p *core.Program, rl rangeLoop) string {
+	pos := rl.rng.Pos()
+	if pos.IsValid() {
+		for _, pk := range p.All {
+			if pk.Fset == nil || len(pk.Syntax) == 0 {
+				continue
+			}
+			file := p.FileOf(pk, pos)
+			if file == nil {
+				continue
+			}
+			text := ""
+			ast.Inspect(file, func(n ast.Node) bool {
+				if rs, ok := n.(*ast.RangeStmt); ok && (rs.For == pos || rs.Pos() == pos) {
+					text = types.ExprString(rs.X)
+					return false
+				}
+				return text == ""
+			})
+			if text != "" {
+				return text
+			}
+		}
+	}
+	return shortExpr(rl.rng.X)
+}
+
+var posSuffix = regexp.MustCompile(` at [A-Za-z0-9_./\-]+\.go:[0-9]+`)
+var workListIn = regexp.MustCompile(`^work-list loop \[[^\]]*\]: `)
+var posParen = regexp.MustCompile(`\([A-Za-z0-9_./\-]+\.go:[0-9]+\)`)
+
+// effectSig: the reasons of a map-range report with positions removed and
+// sorted: what the loop body does, independent of names and line numbers.
+func effectSig(reasons []string) string {
+	var out []string
+	for _, r := range reasons {
+		r = posSuffix.ReplaceAllString(r, "")
+		r = workListIn.ReplaceAllString(r, "work-list loop: ")
+		r = posParen.ReplaceAllString(r, "")
+		out = append(out, strings.TrimSpace(r))
+	}
+	sort.Strings(out)
+	return strings.Join(out, "; ")
+}
+
+// isPickAny: the loop body only removes the current key from the ranged map
+// and returns — "take any element of the map". Whether the choice matters is
+// decided at the call sites (classifyMapRange).
+func isPickAny(rl rangeLoop) bool {
+	hdr := rl.next.Block()
+	sawReturn := false
+	for b := range rl.body {
+		for _, s := range b.Succs {
+			if s == hdr {
+				return false // the body iterates
+			}
+		}
+		for _, in := range b.Instrs {
+			switch x := in.(type) {
+			case *ssa.Return:
+				sawReturn = true
+			case *ssa.Extract, *ssa.Jump, *ssa.If, *ssa.DebugRef, *ssa.MakeInterface, *ssa.RunDefers, *ssa.Phi, *ssa.BinOp, *ssa.UnOp, *ssa.ChangeType, *ssa.Convert:
+			case *ssa.Store:
+				if _, ok := x.Addr.(*ssa.Alloc); !ok {
+					return false
+				}
+			case ssa.CallInstruction:
+				bi, ok := x.Common().Value.(*ssa.Builtin)
+				if !ok || (bi.Name() != "delete" && bi.Name() != "len") {
+					return false
+				}
+				if bi.Name() == "delete" && (x.Common().Args[0] != rl.rng.X || x.Common().Args[1] != rl.key) {
+					// delete on the same map value (possibly re-loaded): compare access paths
+					a, b2 := core.AccessOf(x.Common().Args[0]), core.AccessOf(rl.rng.X)
+					if a.Root != b2.Root || strings.Join(a.Fields, ".") != strings.Join(b2.Fields, ".") {
+						return false
+					}
+				}
+			default:
+				return false
+			}
+		}
+	}
+	return sawReturn
+}
+
+// pickAnyCallSites: the calls of the pick-any function g (a named function or a
+// closure bound in its parent).
+func pickAnyCallSites(p *core.Program, g *ssa.Function) []ssa.CallInstruction {
+	var out []ssa.CallInstruction
+	scan := func(f *ssa.Function) {
+		for _, b := range f.Blocks {
+			for _, in := range b.Instrs {
+				ci, ok := in.(ssa.CallInstruction)
+				if !ok {
+					continue
+				}
+				if ci.Common().StaticCallee() == g {
+					out = append(out, ci)
+					continue
+				}
+				if ci.Common().StaticCallee() == nil && !ci.Common().IsInvoke() {
+					for _, leaf := range core.Leaves(ci.Common().Value, core.SliceOpts{}) {
+						if mc, ok := leaf.(*ssa.MakeClosure); ok && mc.Fn == ssa.Value(g) {
+							out = append(out, ci)
+						}
+					}
+				}
+			}
+		}
+	}
+	if g.Parent() != nil {
+		scan(g.Parent())
+		return out
+	}
+	if g.Pkg != nil {
+		for _, m := range g.Pkg.Members {
+			if f, ok := m.(*ssa.Function); ok {
+				scan(f)
+				for _, an := range f.AnonFuncs {
+					scan(an)
+				}
+			}
+			if t, ok := m.(*ssa.Type); ok {
+				for _, recv := range []types.Type{t.Type(), types.NewPointer(t.Type())} {
+					ms := p.SSA.MethodSets.MethodSet(recv)
+					for i := 0; i < ms.Len(); i++ {
+						if f := p.SSA.MethodValue(ms.At(i)); f != nil && f.Pkg == g.Pkg {
+							scan(f)
+							for _, an := range f.AnonFuncs {
+								scan(an)
+							}
+						}
+					}
+				}
+			}
+		}
+	}
+	// a method may be scanned through both receiver forms
+	seen := map[ssa.CallInstruction]bool{}
+	var uniq []ssa.CallInstruction
+	for _, c := range out {
+		if !seen[c] {
+			seen[c] = true
+			uniq = append(uniq, c)
+		}
+	}
+	return uniq
+}
+
+// classifyMapRange returns the reasons why the iteration order of the map
+// range could become visible (empty = order-insensitive). A "take any element"
+// helper is judged by the loops that call it: a work list whose processing step
+// only performs order-free effects reaches the same fixed point in any order.
+func classifyMapRange(p *core.Program, rl rangeLoop) []string {
+	var real []string
+	judge := func(l rangeLoop, prefix string) {
+		for _, rs := range orderSensitive(p, l) {
+			if strings.HasPrefix(rs, "append:") {
+				if appendIsSortedLater(l, rs, p) {
+					continue
+				}
+				real = append(real, prefix+"appends to a slice that is not sorted afterwards ("+strings.TrimPrefix(rs, "append:")+")")
+				continue
+			}
+			real = append(real, prefix+rs)
+		}
+	}
+	if isPickAny(rl) {
+		sites := pickAnyCallSites(p, rl.fn)
+		if len(sites) == 0 {
+			real = append(real, "takes an arbitrary element of the map and no call site was found to judge its use")
+		}
+		for _, cs := range sites {
+			lp, ok := core.InnermostLoop(cs.Block())
+			if !ok {
+				real = append(real, "an arbitrary element of the map is taken outside a work-list loop at "+p.Pos(cs.Pos()))
+				continue
+			}
+			judge(rangeLoop{fn: cs.Parent(), rng: rl.rng, next: rl.next, body: lp.Blocks}, "work-list loop ["+core.FuncName(cs.Parent())+"]: ")
+		}
+		return real
+	}
+	judge(rl, "")
+	return real
+}
+
 func checkMapRanges(c *Ctx, reach *core.Reach) {
 	p, r := c.P, c.R
 	var fns []*ssa.Function
@@ -1011,7 +1207,7 @@ func checkMapRanges(c *Ctx, reach *core.Reach) {
 		}
 		for _, rl := range mapRangesIn(f) {
 			n++
-			base := core.FuncName(f) + "/range " + shortExpr(rl.rng.X)
+			base := core.FuncName(f) + "/range " + rangeName(p, rl)
 			perKey[base]++
 			construct := base
 			if perKey[base] > 1 {
@@ -1021,22 +1217,12 @@ func checkMapRanges(c *Ctx, reach *core.Reach) {
 			if !rl.rng.Pos().IsValid() {
 				pos = p.FuncPos(f)
 			}
-			reasons := orderSensitive(p, rl)
-			var real []string
-			for _, rs := range reasons {
-				if strings.HasPrefix(rs, "append:") {
-					if appendIsSortedLater(rl, rs, p) {
-						continue
-					}
-					real = append(real, "appends to a slice that is not sorted afterwards ("+strings.TrimPrefix(rs, "append:")+")")
-					continue
-				}
-				real = append(real, rs)
-			}
+			real := classifyMapRange(p, rl)
 			if len(real) == 0 {
-				r.Hold("C01.4", construct, pos, "loop body is order-insensitive (map/set updates, accumulators, sorted appends, per-element updates)")
+				r.Hold("C01.4", construct, pos, "loop body is order-insensitive (map/set updates, accumulators, sorted appends, per-element updates, work-list pops with order-free processing)")
 			} else {
-				r.Violate("C01.4", construct, pos, "map iteration order can reach replicated state or a command result: "+strings.Join(real, "; "), reach.PathTo(f)...)
+				r.Add(core.Obligation{Rule: "C01.4", Construct: construct, Pos: pos, Decision: core.Violated, Sig: effectSig(real),
+					Reason: "map iteration order can reach replicated state or a command result: " + strings.Join(real, "; "), Path: reach.PathTo(f)})
 			}
 		}
 	}
